@@ -8,7 +8,7 @@ Local Open Scope N_scope.
 Definition std (l : list chk) : Prop := forall c, In c l -> k_status c = ST_PASS \/ k_status c = ST_FAIL.
 
 (** * overall *)
-Definition ostep (o : N) (c : chk) : N := if k_status c =? ST_PASS then o else k_status c.
+Definition ostep (o : N) (c : chk) : N := if k_status c =? ST_PASS then o else ST_FAIL.
 
 Lemma fold_all_pass l : forall o, all_pass l = true -> fold_left ostep l o = o.
 Proof.
@@ -16,35 +16,33 @@ Proof.
   apply andb_true_iff in H as [H1 H2]. unfold ostep at 2. rewrite H1. apply IH; exact H2.
 Qed.
 
-Lemma fold_not_all_pass l : forall o, all_pass l = false ->
-  exists c, In c l /\ k_status c = fold_left ostep l o /\ k_status c <> ST_PASS.
+Lemma fold_fail l : fold_left ostep l ST_FAIL = ST_FAIL.
+Proof. induction l as [|c t IH]; cbn; [reflexivity|]. unfold ostep at 2. destruct (_ =? _); exact IH. Qed.
+
+Lemma fold_not_all_pass l : forall o, all_pass l = false -> fold_left ostep l o = ST_FAIL.
 Proof.
   induction l as [|c t IH]; intros o H; cbn in *; [discriminate|].
-  unfold ostep at 2. destruct (k_status c =? ST_PASS) eqn:E; cbn in H.
-  - destruct (IH o H) as [d [Hd1 Hd2]]. exists d; split; [right; exact Hd1 | exact Hd2].
-  - destruct (all_pass t) eqn:Ht.
-    + exists c. rewrite (fold_all_pass t _ Ht). split; [left; reflexivity|]. split; [reflexivity|].
-      apply N.eqb_neq; exact E.
-    + destruct (IH (k_status c) eq_refl) as [d [Hd1 Hd2]]. exists d; split; [right; exact Hd1 | exact Hd2].
+  unfold ostep at 2. destruct (k_status c =? ST_PASS) eqn:E; cbn in H; [apply IH; exact H | apply fold_fail].
 Qed.
 
 Lemma overall_pass_iff l : overall l = ST_PASS <-> all_pass l = true.
 Proof.
-  unfold overall. change (fun o c => if k_status c =? ST_PASS then o else k_status c) with ostep.
+  unfold overall. change (fun o c => if k_status c =? ST_PASS then o else ST_FAIL) with ostep.
   split; intro H.
-  - destruct (all_pass l) eqn:E; [reflexivity|].
-    destruct (fold_not_all_pass l ST_PASS E) as [c [_ [H1 H2]]]. congruence.
+  - destruct (all_pass l) eqn:E; [reflexivity|]. rewrite (fold_not_all_pass l _ E) in H. discriminate.
   - apply fold_all_pass; exact H.
 Qed.
 
-Lemma overall_fail_iff l : std l -> (overall l = ST_FAIL <-> all_pass l = false).
+(** the aggregate fails iff some check does not pass — for ALL statuses *)
+Lemma overall_fail_iff_all l : overall l = ST_FAIL <-> all_pass l = false.
 Proof.
-  intro Hs. split; intro H.
+  split; intro H.
   - destruct (all_pass l) eqn:E; [|reflexivity]. apply overall_pass_iff in E. rewrite E in H. discriminate.
-  - unfold overall. change (fun o c => if k_status c =? ST_PASS then o else k_status c) with ostep.
-    destruct (fold_not_all_pass l ST_PASS H) as [c [Hin [H1 H2]]].
-    rewrite <- H1. destruct (Hs c Hin); congruence.
+  - unfold overall. change (fun o c => if k_status c =? ST_PASS then o else ST_FAIL) with ostep.
+    apply fold_not_all_pass; exact H.
 Qed.
+Lemma overall_fail_iff l : std l -> (overall l = ST_FAIL <-> all_pass l = false).
+Proof. intros _. apply overall_fail_iff_all. Qed.
 
 (** * the order of the listed checks *)
 Definition kle (a b : chk) : bool := negb (less b a).
@@ -111,9 +109,9 @@ Proof.
   rewrite Forall_forall in *. intros z Hz. apply filter_In in Hz as [Hz _]. apply Hall; exact Hz.
 Qed.
 
-Lemma failing_in l c : In c (failing (isort l)) <-> In c l /\ k_status c = ST_FAIL.
+Lemma failing_in l c : In c (failing (isort l)) <-> In c l /\ k_status c <> ST_PASS.
 Proof.
-  unfold failing. rewrite filter_In. rewrite N.eqb_eq.
+  unfold failing. rewrite filter_In, negb_true_iff, N.eqb_neq.
   split; intros [H1 H2]; split; auto.
   - apply (Permutation_in _ (isort_perm l)); exact H1.
   - apply (Permutation_in _ (Permutation_sym (isort_perm l))); exact H1.
@@ -122,18 +120,21 @@ Qed.
 Lemma failing_perm l : Permutation (failing (isort l)) (failing l).
 Proof.
   unfold failing. induction (isort_perm l); cbn; auto.
-  - destruct (k_status x =? ST_FAIL); auto.
-  - destruct (k_status x =? ST_FAIL), (k_status y =? ST_FAIL); auto. apply perm_swap.
+  - destruct (negb (k_status x =? ST_PASS)); auto.
+  - destruct (negb (k_status x =? ST_PASS)), (negb (k_status y =? ST_PASS)); auto. apply perm_swap.
   - etransitivity; eauto.
 Qed.
 
-(** among failing checks [kle] is the order of the names *)
-Lemma failing_sorted_by_name l :
+Lemma failing_sorted l : StronglySorted R (failing (isort l)).
+Proof. apply filter_sorted, isort_sorted. Qed.
+
+(** among pass/fail checks the failing ones are listed in the order of their names *)
+Lemma failing_sorted_by_name l : std l ->
   StronglySorted (fun a b => k_name a <= k_name b) (failing (isort l)).
 Proof.
-  assert (H : StronglySorted R (failing (isort l))) by (apply filter_sorted, isort_sorted).
+  intro Hstd. pose proof (failing_sorted l) as H.
   assert (Hf : Forall (fun c => k_status c = ST_FAIL) (failing (isort l))).
-  { rewrite Forall_forall. intros c Hc. apply failing_in in Hc. tauto. }
+  { rewrite Forall_forall. intros c Hc. apply failing_in in Hc as [Hc1 Hc2]. destruct (Hstd c Hc1); congruence. }
   induction H as [|a t Hs IH Hall]; [constructor|].
   inversion Hf as [|? ? Ha Ht]; subst. constructor; [apply IH; exact Ht|].
   rewrite Forall_forall in *. intros z Hz. specialize (Hall z Hz). specialize (Ht z Hz).
@@ -146,13 +147,30 @@ Lemma ready_code s :
   r_code (atomic_response true s) = if overall (s_ready s) =? ST_FAIL then 503 else 200.
 Proof. unfold atomic_response, respond, ready_response, evaluate, checks_of. destruct (_ =? _); reflexivity. Qed.
 
+Lemma ready_200_iff_all s :
+  r_code (atomic_response true s) = 200 <-> all_pass (s_ready s) = true.
+Proof.
+  rewrite ready_code. destruct (overall (s_ready s) =? ST_FAIL) eqn:E.
+  - apply N.eqb_eq in E. apply overall_fail_iff_all in E. rewrite E. split; discriminate.
+  - split; [intros _ | reflexivity]. destruct (all_pass (s_ready s)) eqn:A; [reflexivity|].
+    apply overall_fail_iff_all in A. apply N.eqb_neq in E. contradiction.
+Qed.
 Lemma ready_200_iff s : std (s_ready s) ->
   (r_code (atomic_response true s) = 200 <-> all_pass (s_ready s) = true).
+Proof. intros _. apply ready_200_iff_all. Qed.
+
+Lemma ready_503_lists_all s : all_pass (s_ready s) = false ->
+  r_code (atomic_response true s) = 503 /\ r_status (atomic_response true s) = 1 /\
+  Permutation (r_checks (atomic_response true s)) (not_passing (s_ready s)) /\
+  StronglySorted R (r_checks (atomic_response true s)) /\
+  (std (s_ready s) -> StronglySorted (fun a b => k_name a <= k_name b) (r_checks (atomic_response true s))).
 Proof.
-  intro Hs. rewrite ready_code. destruct (overall (s_ready s) =? ST_FAIL) eqn:E.
-  - apply N.eqb_eq in E. apply (overall_fail_iff _ Hs) in E. rewrite E. split; discriminate.
-  - split; [intros _ | reflexivity]. destruct (all_pass (s_ready s)) eqn:A; [reflexivity|].
-    apply (overall_fail_iff _ Hs) in A. apply N.eqb_neq in E. contradiction.
+  intros Ha. apply overall_fail_iff_all in Ha.
+  unfold atomic_response, respond, ready_response, evaluate, checks_of. rewrite Ha. cbn.
+  repeat split; auto.
+  - apply failing_perm.
+  - apply failing_sorted.
+  - apply failing_sorted_by_name.
 Qed.
 
 Lemma ready_503_lists s : std (s_ready s) -> all_pass (s_ready s) = false ->
@@ -160,12 +178,7 @@ Lemma ready_503_lists s : std (s_ready s) -> all_pass (s_ready s) = false ->
   Permutation (r_checks (atomic_response true s)) (not_passing (s_ready s)) /\
   StronglySorted (fun a b => k_name a <= k_name b) (r_checks (atomic_response true s)).
 Proof.
-  intros Hs Ha. apply (overall_fail_iff _ Hs) in Ha.
-  unfold atomic_response, respond, ready_response, evaluate, checks_of. rewrite Ha. cbn.
-  repeat split; auto.
-  - rewrite failing_perm. replace (failing (s_ready s)) with (not_passing (s_ready s)); [reflexivity|].
-    unfold failing, not_passing. apply filter_ext_in. intros c Hc. destruct (Hs c Hc) as [-> | ->]; reflexivity.
-  - apply failing_sorted_by_name.
+  intros Hs Ha. destruct (ready_503_lists_all s Ha) as (H1 & H2 & H3 & _ & H5). auto.
 Qed.
 
 Lemma ready_200_body s : r_code (atomic_response true s) = 200 ->
@@ -180,50 +193,68 @@ Lemma health_code s :
   r_code (atomic_response false s) = if overall (s_health s) =? ST_FAIL then 503 else 200.
 Proof. unfold atomic_response, respond, health_response, evaluate, checks_of. destruct (_ =? _); reflexivity. Qed.
 
-Lemma health_200_iff s : std (s_health s) ->
-  (r_code (atomic_response false s) = 200 <-> all_pass (s_health s) = true).
+Lemma health_200_iff_all s :
+  r_code (atomic_response false s) = 200 <-> all_pass (s_health s) = true.
 Proof.
-  intro Hs. rewrite health_code. destruct (overall (s_health s) =? ST_FAIL) eqn:E.
-  - apply N.eqb_eq in E. apply (overall_fail_iff _ Hs) in E. rewrite E. split; discriminate.
+  rewrite health_code. destruct (overall (s_health s) =? ST_FAIL) eqn:E.
+  - apply N.eqb_eq in E. apply overall_fail_iff_all in E. rewrite E. split; discriminate.
   - split; [intros _ | reflexivity]. destruct (all_pass (s_health s)) eqn:A; [reflexivity|].
-    apply (overall_fail_iff _ Hs) in A. apply N.eqb_neq in E. contradiction.
+    apply overall_fail_iff_all in A. apply N.eqb_neq in E. contradiction.
+Qed.
+
+(** the body status of /health is "pass" or "fail", never anything else *)
+Lemma health_body_status s :
+  r_status (atomic_response false s) = if all_pass (s_health s) then ST_PASS else ST_FAIL.
+Proof.
+  unfold atomic_response, respond, health_response, evaluate, checks_of.
+  destruct (all_pass (s_health s)) eqn:A.
+  - apply overall_pass_iff in A. rewrite A. reflexivity.
+  - apply overall_fail_iff_all in A. rewrite A. reflexivity.
 Qed.
 
 Lemma health_503_message s :
   r_code (atomic_response false s) = 503 ->
-  exists c, In c (s_health s) /\ k_status c = ST_FAIL /\
-            (forall d, In d (s_health s) -> k_status d = ST_FAIL -> k_name c <= k_name d) /\
+  exists c, In c (s_health s) /\ k_status c <> ST_PASS /\
+            (forall d, In d (s_health s) -> k_status d <> ST_PASS -> kle c d = true) /\
+            (std (s_health s) ->
+               k_status c = ST_FAIL /\
+               forall d, In d (s_health s) -> k_status d = ST_FAIL -> k_name c <= k_name d) /\
             r_message (atomic_response false s) = msg_or_fail c /\
-            (* it is the first failing entry of the listed checks *)
+            (* it is the first not-passing entry of the listed checks *)
             exists pre post, r_checks (atomic_response false s) = pre ++ c :: post /\
-                             forall d, In d pre -> k_status d <> ST_FAIL.
+                             forall d, In d pre -> k_status d = ST_PASS.
 Proof.
   unfold atomic_response, respond, health_response, evaluate, checks_of.
   destruct (overall (s_health s) =? ST_FAIL) eqn:E; cbn; [intros _ | discriminate].
-  apply N.eqb_eq in E.
-  (* some check fails *)
-  assert (Hex : exists c, In c (s_health s) /\ k_status c = ST_FAIL).
-  { destruct (all_pass (s_health s)) eqn:A.
-    - apply overall_pass_iff in A. rewrite A in E. discriminate.
-    - unfold overall in E. change (fun o c => if k_status c =? ST_PASS then o else k_status c) with ostep in E.
-      destruct (fold_not_all_pass _ ST_PASS A) as [c [Hin [H1 _]]]. exists c; split; [exact Hin | congruence]. }
-  pose proof (failing_sorted_by_name (s_health s)) as Hsorted.
+  apply N.eqb_eq in E. apply overall_fail_iff_all in E.
+  assert (Hex : exists c, In c (s_health s) /\ k_status c <> ST_PASS).
+  { unfold all_pass in E. clear - E. induction (s_health s) as [|x l IH]; cbn in E; [discriminate|].
+    destruct (k_status x =? ST_PASS) eqn:Ex; cbn in E.
+    - destruct (IH E) as [c [H1 H2]]. exists c; split; [right; exact H1 | exact H2].
+    - exists x; split; [left; reflexivity | apply N.eqb_neq; exact Ex]. }
+  pose proof (failing_sorted (s_health s)) as Hsorted.
   unfold first_failure.
   destruct (failing (isort (s_health s))) as [|c t] eqn:Hf.
   { destruct Hex as [c [H1 H2]]. assert (In c (failing (isort (s_health s)))) by (apply failing_in; auto).
     rewrite Hf in H. destruct H. }
   assert (Hc : In c (failing (isort (s_health s)))) by (rewrite Hf; left; reflexivity).
   apply failing_in in Hc as [Hc1 Hc2].
-  exists c. repeat split; auto.
-  - intros d Hd1 Hd2. assert (Hd : In d (failing (isort (s_health s)))) by (apply failing_in; auto).
-    rewrite Hf in Hd. destruct Hd as [<- | Hd]; [lia|].
-    inversion Hsorted as [|? ? _ Hall]; subst. rewrite Forall_forall in Hall. apply Hall; exact Hd.
-  - (* position in the listed checks *)
-    clear - Hf. unfold failing in Hf. induction (isort (s_health s)) as [|x l IH]; cbn in Hf; [discriminate|].
-    destruct (k_status x =? ST_FAIL) eqn:Ex.
-    + inversion Hf; subst. exists [], l. split; [reflexivity | intros d []].
+  assert (Hmin : forall d, In d (s_health s) -> k_status d <> ST_PASS -> kle c d = true).
+  { intros d Hd1 Hd2. assert (Hd : In d (failing (isort (s_health s)))) by (apply failing_in; auto).
+    rewrite Hf in Hd. destruct Hd as [<- | Hd].
+    - unfold kle, less. rewrite N.eqb_refl, N.ltb_irrefl. reflexivity.
+    - inversion Hsorted as [|? ? _ Hall]; subst. rewrite Forall_forall in Hall. apply Hall; exact Hd. }
+  exists c. split; [exact Hc1|]. split; [exact Hc2|]. split; [exact Hmin|]. split; [|split; [reflexivity|]].
+  - intro Hstd. assert (Hcf : k_status c = ST_FAIL) by (destruct (Hstd c Hc1); congruence).
+    split; [exact Hcf|]. intros d Hd1 Hd2.
+    assert (Hk : kle c d = true) by (apply Hmin; [exact Hd1 | rewrite Hd2; discriminate]).
+    unfold kle, less in Hk. rewrite Hcf, Hd2 in Hk. cbn in Hk.
+    destruct (N.ltb_spec (k_name d) (k_name c)); [discriminate | assumption].
+  - clear - Hf. unfold failing in Hf. induction (isort (s_health s)) as [|x l IH]; cbn in Hf; [discriminate|].
+    destruct (k_status x =? ST_PASS) eqn:Ex; cbn in Hf.
     + destruct (IH Hf) as [pre [post [H1 H2]]]. exists (x :: pre), post. split; [cbn; now rewrite H1|].
-      intros d [<- | Hd]; [apply N.eqb_neq; exact Ex | apply H2; exact Hd].
+      intros d [<- | Hd]; [apply N.eqb_eq; exact Ex | apply H2; exact Hd].
+    + inversion Hf; subst. exists [], l. split; [reflexivity | intros d []].
 Qed.
 
 (** * Requests interleaved with operations *)
@@ -432,8 +463,9 @@ Proof.
       - exists (nth i (s_ready (state_at ops ps)) dummy).
         assert (Hc1 : nth i (s_ready (state_at ops ps)) dummy = c)
           by (transitivity (nth i res dummy); [symmetry; exact Heq | exact Hc0]).
-        rewrite Hc1. split; [rewrite <- Hc1; apply nth_In; lia | split; [reflexivity | exact Hf]].
-      - assert (Hp' : k_status c = ST_PASS) by (rewrite <- Hc0; exact Hp). rewrite Hp' in Hf. discriminate. }
+        rewrite Hc1. split; [rewrite <- Hc1; apply nth_In; lia | split; [reflexivity|]].
+        destruct (Hstdres c Hin) as [Hx | Hx]; [contradiction | exact Hx].
+      - assert (Hp' : k_status c = ST_PASS) by (rewrite <- Hc0; exact Hp). contradiction. }
     split; [|exact Hlisted].
     rewrite ready_code. destruct (overall (s_ready (state_at ops ps)) =? ST_FAIL) eqn:E2; [reflexivity|].
     exfalso. assert (A : all_pass (s_ready (state_at ops ps)) = true).
